@@ -93,6 +93,25 @@ def generate(ctx, rng):
                 else:
                     c["before"] = 0
                 yield ("burst-other", i), c
+    # the same object used the way a polling integration uses it
+    for j in range(90 if quick else 30000):
+        i += 1
+        c = _case(rng, gen.random_state(rng))
+        c["seg"] = rng.choice(["aligned", "coalesced"]) if c["version"] == 3 else "aligned"
+        c["before"] = c["after"] = 0
+        c["reauth"] = None
+        which = j % 3
+        if which == 0:
+            # a refresh of the object is still waiting for the unit when the user changes the settings and applies them
+            c["overlap_refresh"] = rng.choice([0.2, 0.3, 0.7])
+        elif which == 1:
+            # the unit closes the idle connection in an orderly way between two operations; then another state is applied
+            c["idle_close"] = rng.choice(["fin", "fin", "rst"])
+            c["then_apply"] = gen.random_state(rng)
+        else:
+            # the object was created in start-up code, before the event loop ran
+            c["preconstructed"] = True
+        yield ("usage", i), c
     for _ in range(1300 if quick else 450000):
         i += 1
         yield ("rnd", i), _case(rng, gen.random_state(rng))
@@ -183,20 +202,55 @@ def run_case(ctx, case):
         segs, splits, coalesces = _cut(allp, case["seg"], r)
         info["splits"] |= splits
         info["coalesces"] |= coalesces
-        return [(0.001 * i, s) for i, s in enumerate(segs)]
+        late = 0.0
+        if case.get("overlap_refresh") and not info.get("slowed") and acframe.parse_command(req)["body"][0] == 0x41:
+            info["slowed"] = True
+            late = case["overlap_refresh"]          # the unit is slow to answer this one query
+        return [(late + 0.001 * i, s) for i, s in enumerate(segs)]
 
     dev.on_exchange = on_exchange
 
+    pre = None
+    if case.get("preconstructed"):
+        # start-up code of an application: the main thread has no event loop yet (asyncio.run() will make one later)
+        import warnings
+        asyncio.set_event_loop_policy(None)
+        try:
+            with warnings.catch_warnings():
+                warnings.simplefilter("ignore")
+                pre = AC(ip=dev.host, port=dev.port, device_id=dev.device_id)
+        except Exception as e:  # noqa: BLE001
+            ctx.count(("pre", case["sseed"]), kind="e2e-raised")
+            ctx.violation(f"e2e-raises/{type(e).__name__}", f"constructing the device object before the event loop runs: {type(e).__name__}: {e}", case)
+            return
+        finally:
+            asyncio.set_event_loop(None)
+
     async def go(loop):
-        a = AC(ip=dev.host, port=dev.port, device_id=dev.device_id)
+        a = pre if pre is not None else AC(ip=dev.host, port=dev.port, device_id=dev.device_id)
         if version == 3:
             await a.authenticate(tok_arg, key_arg)
         if version == 3 and case.get("reauth") in ("before-apply", "both"):
             await a.authenticate(tok_arg, key_arg)      # an application re-running its set-up on the live (quiescent) connection
+        poll = None
+        if case.get("overlap_refresh"):
+            poll = asyncio.ensure_future(a.refresh())
+            await asyncio.sleep(0.1)
         gen.apply_to_ac(a, st, aliases=bool(case.get("aliases")), ints=bool(case.get("ints")))
         await a.apply()
+        if poll is not None:
+            await poll
         dev_after_apply = dict(model.state)
         n_controls = len(model.controls)
+        if case.get("idle_close"):
+            await asyncio.sleep(5.0)
+            for c in dev.conns:
+                if not c.closed:
+                    c.emit([(0, case["idle_close"])])
+            await asyncio.sleep(1.0)
+            gen.apply_to_ac(a, case["then_apply"])
+            await a.apply()
+            info["second"] = (dict(model.state), len(model.controls))
         toggled = None
         a_reads = None
         if version == 3 and case.get("reauth") in ("after-apply", "both"):
@@ -235,10 +289,20 @@ def run_case(ctx, case):
     # --- apply half: the device ended up in the applied state
     exp = gen.expected_device_state(st)
     diffs = {f: (exp[f], dev_after_apply[f]) for f in exp if dev_after_apply[f] != exp[f]}
-    if n_controls != 1 or diffs:
+    # (with a refresh of the same object in flight the two exchanges may take each other's replies - the library does not
+    # correlate them - and the control command may be retransmitted: only the state the unit ends up in is judged there)
+    if (n_controls != 1 and not (case.get("overlap_refresh") and 1 <= n_controls <= 3)) or diffs:
         bad = True
         ctx.violation(f"apply-mismatch/{sorted(diffs)[0] if diffs else 'control-count'}",
                       f"after apply() the device holds {diffs or n_controls} (V{version})", case, {"rejected": model.rejected[:2]})
+    if "second" in info:
+        ctx.bump("apply-after-orderly-close-checked")
+        exp2 = gen.expected_device_state(case["then_apply"])
+        d2 = {f: (exp2[f], info["second"][0][f]) for f in exp2 if info["second"][0][f] != exp2[f]}
+        if d2 or info["second"][1] != 2:
+            bad = True
+            ctx.violation(f"apply-mismatch/{sorted(d2)[0] if d2 else 'control-count'}", f"apply() after the unit closed the idle connection ({case['idle_close']}): "
+                          f"the device holds {d2 or info['second'][1]} (V{version})", case)
     if info.get("ids", set()) - {case["id"]}:
         bad = True
         ctx.violation("device-id-on-wire", f"packets carried device id(s) {sorted(info['ids'])} instead of {case['id']}", case)
